@@ -209,23 +209,23 @@ func (sp TSpec) rule(left, horiz, cross, right string, ws []int) string {
 	return b.String()
 }
 
+// content assembles one content line: the slots, each between single spaces, separated by whatever divider glyphs
+// the decoration has (the plain boxless decoration has none: its slots are simply joined by one space).
 func (sp TSpec) content(slots []string, left, inner, right string) string {
-	if sp.Boxless {
-		return strings.Join(slots, " ") + "\n"
+	var fields []string
+	if left != "" {
+		fields = append(fields, left)
 	}
-	var b strings.Builder
-	b.WriteString(left)
 	for i, s := range slots {
-		if i > 0 {
-			b.WriteString(inner)
+		if i > 0 && inner != "" {
+			fields = append(fields, inner)
 		}
-		b.WriteString(" ")
-		b.WriteString(s)
-		b.WriteString(" ")
+		fields = append(fields, s)
 	}
-	b.WriteString(right)
-	b.WriteString("\n")
-	return b.String()
+	if right != "" {
+		fields = append(fields, right)
+	}
+	return strings.Join(fields, " ") + "\n"
 }
 
 // RenderText produces the expected output (requires NCols >= 1).
